@@ -1294,7 +1294,12 @@ func TestVerifC01(t *testing.T) {
 	// ---- E1 main corpus: whole + byte-by-byte, every buffer size
 	seenFile := map[string]bool{}
 	runMain := func(fullProduct bool) (stop bool) {
-		for _, f := range formats {
+		order := formats
+		if fullProduct {
+			// flat files first: their parsers carry per-record state, the costliest products go last
+			order = []string{"genbank", "embl", "fasta", "fastq"}
+		}
+		for _, f := range order {
 			if !want("main", f) {
 				continue
 			}
